@@ -57,7 +57,7 @@ PROPS['C20']['level_text'] += (' Metadata filters at a point in time (volumes, a
 READS_HTTP_NOTE = (' TIE-H reads: the same probes are also issued as v2 GET requests against the real router (pit / oot, endTime / startTime on /volumes, insertionDate, use_insertion_date / '
                    'useInsertionDate, groupBy, expand, sort, query=<filter JSON>), decoded page by page from the JSON answers and compared with the read-side model; a monitor without model '
                    'requires each HTTP answer to equal the controller-level answer, and balance = input - output on every volumes row.')
-for _pid in ['C05', 'C17', 'C20']:
+for _pid in ['C05', 'C17', 'C20', 'C21']:
     PROPS[_pid]['ties'].append(dict(name='TIE-H reads http', vh='reads', model='reads', n=dict(quick=60, thorough=1500), args=dict(all=['-via', 'http', '-monitors', _pid]),
                                     kinds=[_pid], case_head='reads', replayable=False))
     PROPS[_pid]['explanation'] += READS_HTTP_NOTE
